@@ -47,6 +47,11 @@ def effect_log(chk, stale_cwd, stale_in_dir, same_dir, has_findings, tree_name='
         w.files[k.replace('root', root, 1)] = dict(v, path=k.replace('root', root, 1))
     if stale_cwd and not same_dir:
         w.files['solstat_report.md'] = {'name': Str('solstat_report.md'), 'kind': 'file', 'path': 'solstat_report.md', 'contents': Str(z3.String('stale_report'))}
+    if same_dir:
+        # the working directory IS the analysed directory: `solstat_report.md` is the entry of that name in its listing
+        for k_, v_ in w.files.items():
+            if k_.count('/') == 1 and v_['name'].concrete and v_['name'].v == 'solstat_report.md':
+                w.aliases['solstat_report.md'] = k_
     e.flags['world'] = w
     e.flags['symbolic_listing'] = symbolic_listing   # listing orders are C03's subject; they multiply over the three passes (small trees only)
     args = Adt('Args', None, (some(Str(root)), NONE))
@@ -381,7 +386,27 @@ def native_part(chk):
             else:
                 open(p, 'w').write(content)
         reports = []
-        for stale in (None, 'STALE REPORT CONTENT THAT MUST DISAPPEAR\n' * 400, '- A.sol:999\n'):
+        fresh = []
+        for stale in (None, 'STALE REPORT CONTENT THAT MUST DISAPPEAR\n' * 400, '- A.sol:999\n', 'CRLF', 'TAIL', 'PREFIX'):
+            if stale in ('CRLF', 'TAIL', 'PREFIX'):
+                if not reports or reports[0] is None:
+                    continue
+                # a previous report that differs from the new one only in line ends / behind an undecodable byte / by being a prefix
+                good = reports[0].encode()
+                stale_bytes = {'CRLF': good.replace(b'\n', b'\r\n'), 'TAIL': good + b'\xff\xfe stale tail \n- Old.sol:1\n', 'PREFIX': good[:len(good) // 2]}[stale]
+                rp = os.path.join(cwd, 'solstat_report.md')
+                open(rp, 'wb').write(stale_bytes)
+                before_t = tree_digest(target, skip=('solstat_report.md',) if same_dir else ())
+                p = subprocess.run([binary, '--path', '.' if same_dir else target], cwd=cwd, stdout=subprocess.PIPE, stderr=subprocess.PIPE, text=True)
+                chk.validated += 1
+                now = open(rp, 'rb').read() if os.path.exists(rp) else None
+                if p.returncode != 0 or now != good or before_t != tree_digest(target, skip=('solstat_report.md',) if same_dir else ()):
+                    chk.violation('run:stale-report-survives', 'solstat run over a previous report that is the new report %s: exit %d, the file afterwards %s the new report (%s bytes, expected %d)' % (
+                        {'CRLF': 'with CRLF line ends', 'TAIL': 'followed by undecodable bytes and old entries', 'PREFIX': 'cut in half'}[stale], p.returncode,
+                        'is' if now == good else 'is NOT', len(now) if now is not None else 'no', len(good)), {'job': 'solstat', 'stale': stale})
+                else:
+                    chk.ok()
+                continue
             rp = os.path.join(cwd, 'solstat_report.md')
             if stale is None:
                 if os.path.exists(rp):
